@@ -65,11 +65,6 @@ func TestVerif_C17_gateway(t *testing.T) {
 		return
 	}
 
-	for _, f := range []string{c17FindThr, c17FindMark, c17FindIdx, c17FindTok, c17FindEP} {
-		if !c17ExclusionOn[f] {
-			col.Note("exclusion for " + f + " switched off in the harness (defect repaired)")
-		}
-	}
 	verifkit.RapidSetup(400, 10000)
 	rapid.Check(t, func(rt *rapid.T) {
 		c := c17GenCase().Draw(rt, "case")
